@@ -146,6 +146,13 @@ def run_case(case, ctx):
     desc = {'bounds': bounds.tolist(), 'times': t.tolist(), 'tdtype': t.dtype.name, 'clusters': clusters.tolist(),
             'n_chunks_kept': kept, 'count': count, 'requested': req, 'subset_chunks': subset_chunks,
             'subset_spikes': None if subset_spikes is None else subset_spikes.tolist(), 'seed': case['seed']}
+    if case['seed'][-1] % 3 == 1:
+        t.flags.writeable = False                 # times as np.load(mmap_mode='r') hands them out
+        bounds.flags.writeable = False
+        if subset_spikes is not None:
+            subset_spikes.flags.writeable = False
+    if case['seed'][-1] % 5 == 2 and subset_spikes is not None:
+        subset_spikes = subset_spikes.astype([np.uint64, np.int32, np.uint32][case['seed'][-1] % 3])     # ids of any integer dtype
     # the caller keeps ONE index array per cluster (as TemplateModel does); it must never be altered
     spc = {int(c): _spikes_in_clusters(clusters, [c]) for c in np.unique(clusters)}
     spc0 = {c: v.copy() for c, v in spc.items()}
